@@ -14,6 +14,8 @@ EXPLANATION = (
     "entry.socks5; the server forwarder re-emits datagrams under the first frame's flow id and the server routes "
     "by the datagram's flow id; (R3) the UDP client id space reserves 0 for stdio, so ids must be allocated with "
     "next_available_nonzero_key; the SOCKS5 UDP reply header is C18.R1.")
+EXPLANATION_ADDED = "(R5) the server UDP forwarder sends every datagram to the target that datagram names; (R6) the bridge consumes from the stream exactly what the socket accepted (=C13.R4); (R7) the server connects to the address resolved from the channel's dest_host/dest_port; (R8) the SOCKS5 flag of a UDP client is true iff its datagrams pass the relay-header parser; (R9) datagram payloads reach Datagram.data through conversions only; (R10) a pruned per-flow forwarder is removed from the server's routing table."
+EXPLANATION = EXPLANATION + " Added while testing against seeded changes: " + EXPLANATION_ADDED
 ASSUMPTIONS = ["byte transparency of the bridge itself is C13 / C02; tokio sockets deliver what they are given"]
 NOT_DECIDED = "byte transparency, half-close behaviour, close/refusal propagation and concurrency of clients at run time"
 QUICK_CONFIGS = ["default"]
